@@ -8,6 +8,7 @@ import LfsModel.Gen
 import LfsModel.TQTraceProofs
 import LfsModel.TQRetry
 import LfsModel.TQErr
+import LfsModel.TQConcat
 
 namespace C06
 open TQ
@@ -109,5 +110,26 @@ example : ∃ s, xrun (init 4 2 8)
      .core (.jobResult 7 .ok), .core .waitCall, .core .waitReturn] = some s
     ∧ s.counter = 0 ∧ s.delivered = [7, 7] ∧ s.rc 7 = 1 := by
   refine ⟨_, rfl, ?_, ?_, ?_⟩ <;> decide
+
+/-! ### batch.Concat: what the collector carries from one batch to the next -/
+
+/-- the split into "next batch" and "remainder" loses nothing and duplicates nothing: every object
+    left over from the running batch or collected since is in exactly one of the two -/
+theorem concat_conserves (now : Int) (b other : List TQConcat.Item) (size : Nat) :
+    ((TQConcat.concat now b other size).1 ++ (TQConcat.concat now b other size).2).Perm (b ++ other) :=
+  TQConcat.concat_conserves now b other size
+
+/-- in particular an object that still has to wait (back-off, Retry-After) stays in the remainder,
+    also when the ready objects overflow the batch size -/
+theorem concat_waiting_kept (now : Int) (b other : List TQConcat.Item) (size : Nat) (it : TQConcat.Item)
+    (hm : it ∈ b ++ other) (hw : ¬ it.2 < now) : it ∈ (TQConcat.concat now b other size).2 :=
+  TQConcat.concat_waiting_kept now b other size it hm hw
+
+theorem concat_left_bounded (now : Int) (b other : List TQConcat.Item) (size : Nat) :
+    (TQConcat.concat now b other size).1.length ≤ size := TQConcat.concat_left_bounded now b other size
+
+/-- non-vacuity (the shape of seeded change C06/4): two delayed retries, three ready objects, batch size 2 -/
+example : TQConcat.concat 100 [(1, 500), (2, 700)] [(3, 0), (4, 0), (5, 0)] 2 =
+    ([(3, 0), (4, 0)], [(1, 500), (2, 700), (5, 0)]) := by decide
 
 end C06
